@@ -426,7 +426,7 @@ class PeriodicGrid(Grid):
         ilc_max = np.floor(self._frac_intvls[:, 1] - frac_center + radius / self._spacings).astype(
             int
         )
-        assert (ilc_min <= ilc_max).all()
+        # (an empty range means that no periodic image can lie inside the sphere)
 
         # C) Loop over all possible translations of the center
         # ----------------------------------------------------
